@@ -28,6 +28,10 @@ def fams(tier):
     return cachefam.reader_families("memory") + cachefam.reader_families("file")
 
 
+def traps(tier):
+    return [t for be in ('memory','file') for t in cachefam.trap_families(be) if 'reader' in t['name']]
+
+
 def run(tier, seed):
     extra = []
     try:
